@@ -9,6 +9,7 @@ import (
 	"encoding/binary"
 	"encoding/json"
 	"fmt"
+	"reflect"
 	"sort"
 
 	"github.com/cosmos/cosmos-sdk/crypto/keys/secp256k1"
@@ -217,6 +218,20 @@ func (w *World) Exec(st State, msg sdk.Msg) (res TxResult) {
 			res = TxResult{Err: fmt.Sprintf("panic: %v", r), Panic: true}
 		}
 	}()
+	// a real transaction reaches the handler after a protobuf round trip (nil vs empty slices etc.)
+	if pm, ok := msg.(interface {
+		Marshal() ([]byte, error)
+	}); ok {
+		bz, err := pm.Marshal()
+		if err != nil {
+			return TxResult{Err: "marshal: " + err.Error()}
+		}
+		fresh := reflect.New(reflect.TypeOf(msg).Elem()).Interface()
+		if err := fresh.(interface{ Unmarshal([]byte) error }).Unmarshal(bz); err != nil {
+			return TxResult{Err: "unmarshal: " + err.Error()}
+		}
+		msg = fresh.(sdk.Msg)
+	}
 	if err := msg.ValidateBasic(); err != nil {
 		return TxResult{Err: "validate-basic: " + err.Error()}
 	}
